@@ -67,7 +67,7 @@ def generate(rng, index, tier):
     if index % 499 == 3:
         # many threads: every one announces a thread/process (data record, then its name string); with a round-robin merge
         # all data records are pending at once before the first string arrives
-        n = [34, 70, 140, 300][(index // 499) % 4]
+        n = [34, 70, 140, 300, worlds.dict_size(rng, 70000) or 600][(index // 499) % 5]
         threads = []
         for ti in range(n):
             ctx = worlds.Ctx(ti, 1000 + ti)
@@ -220,7 +220,7 @@ def execute(scn):
         orders.add(order)
         # conflict adjacencies and probes
         sw_ds = set()
-        for i in range(len(stream) - 1):
+        for i in (range(len(stream) - 1) if len(per) <= 64 and len(stream) <= 5000 else ()):
             a, b = stream[i], stream[i + 1]
             if a['th'] == b['th']:
                 continue
